@@ -2403,6 +2403,9 @@ func (p *Posix) UploadPart(ctx context.Context, input *s3.UploadPartInput) (*s3.
 		}
 		return nil, fmt.Errorf("write part data: %w", err)
 	}
+	if f.size != 0 {
+		return nil, s3err.GetAPIError(s3err.ErrIncompleteBody)
+	}
 
 	dataSum := hash.Sum(nil)
 	etag := hex.EncodeToString(dataSum)
@@ -2844,6 +2847,11 @@ func (p *Posix) PutObject(ctx context.Context, po s3response.PutObjectInput) (s3
 			return s3response.PutObjectOutput{}, s3err.GetAPIError(s3err.ErrQuotaExceeded)
 		}
 		return s3response.PutObjectOutput{}, fmt.Errorf("write object data: %w", err)
+	}
+	if f.size != 0 {
+		// fewer bytes than declared: the preallocated file must not be
+		// published zero padded
+		return s3response.PutObjectOutput{}, s3err.GetAPIError(s3err.ErrIncompleteBody)
 	}
 
 	dir := filepath.Dir(name)
